@@ -116,25 +116,11 @@ func (a *Agent) Run(ctx context.Context) error {
 	}
 	verifPoint("agent.probed", a.requestID)
 
-	// Make a connection to the database.
-	// It should close the connection to the history database when the DAG
-	// execution is finished.
-	if err := a.setupDatabase(); err != nil {
-		return err
-	}
-	verifPoint("agent.histopen", a.requestID)
-	defer func() {
-		if err := a.historyStore.Close(); err != nil {
-			a.logger.Error("Failed to close history store", "error", err)
-		}
-	}()
-
-	if err := a.historyStore.Write(a.Status()); err != nil {
-		a.logger.Error("Failed to write status", "error", err)
-	}
-
 	// Start the unix socket server for receiving HTTP requests from
 	// the local client (e.g., the frontend server, scheduler, etc).
+	// Binding the socket is what makes this process the run of the DAG: it
+	// fails if another process is serving the address, and it comes before
+	// anything is recorded, so that a refused start leaves no trace.
 	if err := a.setupSocketServer(); err != nil {
 		return err
 	}
@@ -155,9 +141,29 @@ func (a *Agent) Run(ctx context.Context) error {
 
 	// It returns error if it failed to start the unix socket server.
 	if err := <-lnErr; err != nil {
+		if errors.Is(err, sock.ErrAddressInUse) {
+			return fmt.Errorf("%w. socket=%s", errDAGIsAlreadyRunning, a.dag.SockAddr())
+		}
 		return errFailedSetupUnixSocket
 	}
 	verifPoint("agent.bound", a.requestID)
+
+	// Make a connection to the database.
+	// It should close the connection to the history database when the DAG
+	// execution is finished.
+	if err := a.setupDatabase(); err != nil {
+		return err
+	}
+	verifPoint("agent.histopen", a.requestID)
+	defer func() {
+		if err := a.historyStore.Close(); err != nil {
+			a.logger.Error("Failed to close history store", "error", err)
+		}
+	}()
+
+	if err := a.historyStore.Write(a.Status()); err != nil {
+		a.logger.Error("Failed to write status", "error", err)
+	}
 
 	// Setup channels to receive status updates for each node in the DAG.
 	// It should receive node instance when the node status changes, for
